@@ -28,10 +28,11 @@ BOUNDS = {"quick": {"n": 7, "d": 5, "u": 4, "k": 3}, "thorough": {"n": 9, "d": 7
 B = {}
 BOUNDS_TEXT = ("parent fixed to /r/ab (sibling /r/abc in mind); child/preauthChild name of <= n arbitrary code "
                "points; descendant of <= 2 segments with <= d characters in total; request path '/' + <= u "
-               "arbitrary bytes, and '/' + <= k tokens from a traversal menu ('..', '.', '%2e', '%2E', '%2f', "
+               "arbitrary bytes < 0x80, and '/' + <= k tokens from a traversal menu ('..', '.', '%2e', '%2E', '%2f', "
                "'%2F', '%5c', '%00', '/', 'abc', 'x', '%', '\\\\')")
-OUTSIDE = ["symbolic links (the property excludes them) and any real filesystem: exists()/isdir() answer True for "
-           "every path (the most permissive tree), restat is a no-op",
+OUTSIDE = ["symbolic links (the property excludes them) and any real filesystem: os.stat / os.path.exists as "
+           "seen by twisted.python.filepath are fakes that record the path and answer 'a directory' for every "
+           "path (the most permissive tree)",
            "bytes-mode FilePath and non-UTF-8 request segments (getChild answers NotFound before touching a path; "
            "bytes >= 0x80 in a request are outside the symbolic alphabet of the request harnesses)",
            "Windows path rules (os.sep '\\\\', drive letters, the colon check)",
@@ -40,6 +41,8 @@ OUTSIDE = ["symbolic links (the property excludes them) and any real filesystem:
 ASSUMPTIONS = ["posixpath.normpath/abspath/join: CPython's pure-Python algorithms (the ImportError fallback of "
                "posixpath.normpath) stand in for the C accelerated ones; compared with os.path on a corpus of "
                "hostile paths on every run (selftest)",
+               "repr() of a *symbolic* str is a constant under the solver (twisted formats the offending name "
+               "into InsecurePath messages only; formatting would realise it); replay uses the real repr",
                "request harnesses: urllib's unquote_to_bytes is replaced in the lifted world by a pure %XX "
                "decoder, compared with the real one on a corpus on every run"]
 EXPLANATION = ("real FilePath.child/preauthChild/descendant and static.File traversal on symbolic names; result "
